@@ -1048,6 +1048,9 @@ class CylindricalDetector(Detector):
             raise ValueError('`param` {} not in the valid range '
                              '{}'.format(param_in, self.params))
 
+        # Both parameters may be given with different (broadcastable)
+        # shapes, all arrays below have the broadcast shape
+        param = np.broadcast_arrays(*param)
         surf = np.empty(param[0].shape + (3,))
         surf[..., 0] = self.radius * np.cos(param[0])
         surf[..., 1] = self.radius * (-np.sin(param[0]))
@@ -1124,6 +1127,9 @@ class CylindricalDetector(Detector):
             raise ValueError('`param` {} not in the valid range '
                              '{}'.format(param_in, self.params))
 
+        # Both parameters may be given with different (broadcastable)
+        # shapes, all arrays below have the broadcast shape
+        param = np.broadcast_arrays(*param)
         deriv_phi = np.empty(param[0].shape + (3,))
         deriv_phi[..., 0] = -np.sin(param[0])
         deriv_phi[..., 1] = -np.cos(param[0])
@@ -1309,6 +1315,9 @@ class SphericalDetector(Detector):
             raise ValueError('`param` {} not in the valid range '
                              '{}'.format(param_in, self.params))
 
+        # Both parameters may be given with different (broadcastable)
+        # shapes, all arrays below have the broadcast shape
+        param = np.broadcast_arrays(*param)
         surf = np.empty(param[0].shape + (3,))
         surf[..., 0] = np.cos(param[0]) * np.cos(param[1])
         surf[..., 1] = -np.sin(param[0]) * np.cos(param[1])
@@ -1387,6 +1396,9 @@ class SphericalDetector(Detector):
             raise ValueError('`param` {} not in the valid range '
                              '{}'.format(param_in, self.params))
 
+        # Both parameters may be given with different (broadcastable)
+        # shapes, all arrays below have the broadcast shape
+        param = np.broadcast_arrays(*param)
         deriv_phi = np.empty(param[0].shape + (3,))
         deriv_phi[..., 0] = -np.sin(param[0]) * np.cos(param[1])
         deriv_phi[..., 1] = -np.cos(param[0]) * np.cos(param[1])
